@@ -71,16 +71,16 @@ var impWants = []impWant{
 	{dir: "align", pkg: "alignf", funcs: []string{"SubstitutionMatrix.Symmetrical"}, floatAs: "F"},
 	{dir: "trie", pkg: "trie", funcs: []string{"New", "Trie.Add", "Trie.Has", "Trie.Delete", "Trie.keys", "Trie.ForEach"}, heap: "Trie", valPtr: []string{"forEachStep"}, stops: true},
 	{dir: "formats/fasta", pkg: "fasta", funcs: []string{"Fasta.Write", "Fasta.MarshalText"}, join: true},
-	{dir: "formats/fasta", pkg: "fastard", stops: true, funcs: []string{"reader.read", "reader.iter", "Reader"}, errZ: true},
+	{dir: "formats/fasta", pkg: "fastard", stops: true, funcs: []string{"reader.read", "reader.iter", "Reader", "File"}, errZ: true},
 	{dir: "formats/fastq", pkg: "fastq", funcs: []string{"Fastq.Write", "Fastq.MarshalText"}, join: true},
-	{dir: "formats/fastq", pkg: "fastqrd", stops: true, funcs: []string{"reader.read", "reader.iter", "Reader"}, errZ: true, join: true},
+	{dir: "formats/fastq", pkg: "fastqrd", stops: true, funcs: []string{"reader.read", "reader.iter", "Reader", "File"}, errZ: true, join: true},
 	{dir: "formats/sam", pkg: "sam", funcs: []string{"tagToText", "tagsToText", "SAM.Write", "SAM.MarshalText", "splitTag", "parseTags", "parseInts", "parseLine"}, optRes: true, join: true, floatAs: "F"},
-	{dir: "formats/sam", pkg: "samrd", stops: true, funcs: []string{"ReaderHeader", "Reader"}, errZ: true, floatAs: "F", optPtr: []string{"SAM", "string"},
+	{dir: "formats/sam", pkg: "samrd", stops: true, funcs: []string{"ReaderHeader", "Reader", "File", "FileHeader"}, errZ: true, floatAs: "F", optPtr: []string{"SAM", "string"},
 		ext: []impExt{{name: "parseLine", coq: "imp_sam_parseLine", oracle: true, errBool: true}}, extRecs: map[string]string{"SAM": "sam"}},
 	{dir: "formats/smtext", pkg: "smtext", funcs: []string{"extractSingleChar", "ReadNCBI"}, errZ: true, floatAs: "F"},
-	{dir: "formats/bed", pkg: "bed", stops: true, funcs: []string{"BED.Write", "BED.MarshalText", "parseLine", "reader.read", "Reader"}, join: true, errZ: true},
+	{dir: "formats/bed", pkg: "bed", stops: true, funcs: []string{"BED.Write", "BED.MarshalText", "parseLine", "reader.read", "Reader", "File"}, join: true, errZ: true},
 	{dir: "formats/newick", pkg: "newick", stops: true, funcs: []string{"quoted", "nameFromText", "nameToText", "Node.traverse", "Node.PreOrder", "Node.PostOrder", "Node.newick", "Node.MarshalText", "Node.Write"}, floatAs: "F"},
-	{dir: "formats/newick", pkg: "newickrd", stops: true, heap: "Node", heapRec: true, funcs: []string{"reader.nextToken", "quoted", "nameFromText", "reader.read", "Reader"}, errZ: true, floatAs: "F"},
+	{dir: "formats/newick", pkg: "newickrd", stops: true, heap: "Node", heapRec: true, funcs: []string{"reader.nextToken", "quoted", "nameFromText", "reader.read", "Reader", "File"}, errZ: true, floatAs: "F"},
 }
 
 type impFn struct {
@@ -130,6 +130,7 @@ type impTr struct {
 	heapType string
 	heapRec  bool
 	fnHeap   bool
+	openMode bool // the function opens a file with aio.Open: parameter open__
 	valPtr   []string
 	aliasOf  map[types.Object]ast.Expr // alias variable -> the slice expression it indexes (pre-scan)
 	aliasIdx map[types.Object]string   // alias variable -> the index it was taken at (a bound name)
@@ -1852,6 +1853,13 @@ func (t *impTr) block(list []ast.Stmt, k string, lc *loopCtx) string {
 			}
 		}
 		return wrapOpeners(pre, rest())
+	case *ast.DeferStmt:
+		if sel, ok := s.Call.Fun.(*ast.SelectorExpr); ok && sel.Sel.Name == "Close" && len(s.Call.Args) == 0 {
+			if id, ok := sel.X.(*ast.Ident); ok && t.ioReader != nil && t.info.Uses[id] == t.ioReader {
+				return rest() // closing the opened file has no effect the translated code can see
+			}
+		}
+		t.fail(s, "unsupported defer")
 	case *ast.IncDecStmt:
 		one := "(1)%Z"
 		f := "Z.add"
@@ -1869,6 +1877,29 @@ func (t *impTr) block(list []ast.Stmt, k string, lc *loopCtx) string {
 			if call, ok := s.Rhs[0].(*ast.CallExpr); ok {
 				if o := t.calleeObj(call.Fun); o != nil && o.Pkg() != nil {
 					switch o.Pkg().Path() + "." + o.Name() {
+					case "github.com/fluhus/gostuff/aio.Open":
+						// f, err := aio.Open(file): whether the file opens, and its content as a stream,
+						// is the function's parameter open__ (None: the open fails)
+						if len(s.Lhs) != 2 || !t.openMode {
+							t.fail(s, "unsupported use of aio.Open")
+						}
+						fid, ok := s.Lhs[0].(*ast.Ident)
+						if !ok {
+							t.fail(s, "aio.Open into something other than a variable")
+						}
+						t.ioReader = t.info.Defs[fid]
+						ev := t.fresh()
+						errv := ev
+						if !t.errZ {
+							errv = "(negb (Z.eqb " + ev + " 0%Z))"
+						}
+						empty := "(Stream [] 2%Z None)"
+						if t.streamTy == "go_scanner" {
+							empty = "(Scanner [] [] 2%Z true)"
+						}
+						pre = append(pre, opener{fmt.Sprintf("let '(rd__, %s) := go_open %s open__ in ", ev, empty), ""})
+						t.store(s.Lhs[1], errv, &pre)
+						return wrapOpeners(pre, rest())
 					case "bufio.NewScanner", "bufio.NewReader":
 						if id, ok := call.Args[0].(*ast.Ident); ok && t.ioReader != nil && t.info.Uses[id] == t.ioReader {
 							return rest() // the wrapper around the stream: its methods act on rd__
@@ -2492,6 +2523,9 @@ func (t *impTr) rangeStmt(s *ast.RangeStmt, rest func() string) string {
 			if fn.oracle {
 				args = append(args, "o")
 			}
+			if fn.heap {
+				args = append(args, "h__")
+			}
 			if fn.stream {
 				args = append(args, "rd__")
 			}
@@ -2506,10 +2540,18 @@ func (t *impTr) rangeStmt(s *ast.RangeStmt, rest func() string) string {
 			}
 			items := t.fresh()
 			patIt := items
+			if fn.heap {
+				patIt = "(h__, " + items + ")"
+				yields |= 4
+				state = t.tuple(objs, yields)
+			}
 			if fn.stream {
-				patIt = "'(rd__, " + items + ")"
+				patIt = "(rd__, " + patIt + ")"
 				yields |= 2
 				state = t.tuple(objs, yields)
+			}
+			if fn.heap || fn.stream {
+				patIt = "'" + patIt
 			}
 			nm := func(e ast.Expr) string {
 				if e == nil {
@@ -2853,6 +2895,7 @@ func (t *impTr) function(fd *ast.FuncDecl, coqName string) *impFn {
 	t.fnName = fd.Name.Name
 	var params []string
 	t.stream = false
+	t.openMode = false
 	t.ioReader = nil
 	t.nparams = 0
 	t.recv = ""
@@ -2925,6 +2968,9 @@ func (t *impTr) function(fd *ast.FuncDecl, coqName string) *impFn {
 			if o != nil && o.Pkg() != nil && o.Pkg().Path() == "bufio" && o.Name() == "NewScanner" {
 				t.calleeSty = "go_scanner"
 			}
+			if o != nil && o.Pkg() != nil && o.Pkg().Path() == "github.com/fluhus/gostuff/aio" && o.Name() == "Open" {
+				t.openMode = true
+			}
 		}
 		return true
 	})
@@ -2972,6 +3018,12 @@ func (t *impTr) function(fd *ast.FuncDecl, coqName string) *impFn {
 	if recursive {
 		t.fuel = true
 		t.fns[t.self] = t.selfFn
+	}
+	if t.openMode {
+		// the file the function opens: None if it cannot be opened, else its content as a stream
+		t.stream = true
+		t.streamTy = t.calleeSty
+		params = append(params, "(open__ : option "+t.streamTy+")")
 	}
 	addParam := func(n *ast.Ident) {
 		o := t.info.Defs[n]
